@@ -95,6 +95,8 @@ class Walk:
     def _visit(self, path, depth, ancestors):
         ap = self._abs(path)
         try:
+            if path == "":
+                raise FileNotFoundError(2, "empty name")      # the empty string names nothing
             lst = os.lstat(ap)
         except OSError as e:
             if depth == 0:
